@@ -70,6 +70,15 @@ Theorem C06g_link_vector_suffix :
 Proof. exact link_vector_suffix. Qed.
 Print Assumptions C06g_link_vector_suffix.
 
+Theorem C06g_link_is_empty :
+  forall s : SmtString,
+       M_SmtString_is_empty s = Some match w s with
+                                     | [] => true
+                                     | _ :: _ => false
+                                     end.
+Proof. exact link_is_empty. Qed.
+Print Assumptions C06g_link_is_empty.
+
 Theorem C06g_link_str_concat :
   forall s1 s2 : SmtString, option_map w (M_fn_str_concat s1 s2) = str_concat (w s1) (w s2).
 Proof. exact link_str_concat. Qed.
